@@ -247,14 +247,31 @@ Proof.
   - rewrite Heth in H. discriminate.
 Qed.
 
+Lemma deliver_in_changed c w s0 s1 x :
+  cfg_ok c -> ica_safe w -> changed_capped s0 s1 -> changed_capped s0 (fst (deliver_in c w s1 x)).
+Proof.
+  intros Hc Hi Ht. unfold deliver_in.
+  destruct (ante_ok c x) eqn:Ha; [|exact Ht].
+  destruct (run_msgs c w (t_msgs x) s1) as [s2|] eqn:Hr; [|exact Ht].
+  simpl. eapply run_msgs_inv; eauto using ante_ok_checked.
+Qed.
+
 Lemma deliver_changed c w s0 s x :
   cfg_ok c -> ica_safe w -> changed_capped s0 s -> changed_capped s0 (fst (deliver c w s x)).
 Proof.
-  intros Hc Hi Hs. unfold deliver.
-  assert (Ht : changed_capped s0 (tick s (t_dt x))) by (eapply changed_capped_vals; [|exact Hs]; reflexivity).
-  destruct (ante_ok c x) eqn:Ha; [|exact Ht].
-  destruct (run_msgs c w (t_msgs x) (tick s (t_dt x))) as [s2|] eqn:Hr; [|exact Ht].
-  simpl. eapply run_msgs_inv; eauto using ante_ok_checked.
+  intros Hc Hi Hs. unfold deliver. apply deliver_in_changed; auto.
+Qed.
+
+(** genesis transactions: the same invariant, with the configuration in force at height 0 *)
+Lemma run_genesis_changed cg w s0 gentxs :
+  cfg_ok cg -> ica_safe w ->
+  forall s s', changed_capped s0 s -> run_genesis cg w s gentxs = Some s' -> changed_capped s0 s'.
+Proof.
+  intros Hc Hi. induction gentxs as [|x r IH]; intros s s' Hs Hrun; simpl in Hrun.
+  - inversion Hrun. subst. exact Hs.
+  - pose proof (deliver_in_changed cg w s0 s x Hc Hi Hs) as Hd.
+    destruct (deliver_in cg w s x) as [s1 [|]]; [|discriminate].
+    eapply IH; eauto.
 Qed.
 
 Lemma step_changed c w s0 s e :
@@ -286,6 +303,19 @@ Theorem cap_invariant c w s0 h :
 Proof.
   intros Hc Hi H0 Hg. eapply changed_capped_cap; [exact H0|].
   apply history_changed; auto using changed_capped_refl.
+Qed.
+
+(** from genesis: whatever gentxs InitChain delivers (configuration [cg] at height 0) and whatever history follows *)
+Theorem cap_invariant_from_genesis c cg w minr gentxs s1 dt h :
+  cfg_ok c -> cfg_ok cg -> ica_safe w -> gov_trusted c h ->
+  run_genesis cg w (st0 minr) gentxs = Some s1 ->
+  cap_ok (run_history c w (advance s1 dt) h).
+Proof.
+  intros Hc Hcg Hi Hg Hgen. apply cap_invariant; auto.
+  eapply changed_capped_cap with (s0 := st0 minr).
+  - intros a v Hf. discriminate.
+  - eapply changed_capped_vals with (s := s1); [reflexivity|].
+    eapply run_genesis_changed; eauto using changed_capped_refl.
 Qed.
 
 (** the literal statement: an accepted (or any) transaction leaves every validator either untouched
@@ -359,6 +389,21 @@ Lemma refuted_exec_early_return :
   exists h, only_txs h /\ breaks_cap (run_history cfg_exec_early_return world_plain (st0 0) h).
 Proof.
   exists [mk 1 [Exec 1 [Leaf (Send 1)]; Leaf (CreateVal 1 r90 ONE ONE)]]. split; [exact I|].
+  exists 1%nat. eexists. split; [vm_compute; reflexivity|vm_compute; reflexivity].
+Qed.
+
+(** gentxs routed at height 0 to a chain without the commission decorator: a validator above the cap exists
+    from the first block on *)
+Definition cfg_genesis_no_decorator : cfg :=
+  {| cap := CAP25; nonevm_known := true; evm_route := RouteEVM; other_route := RouteReject; evm_only_eth := true;
+     vb_on := true; sig_on := true; dec_on := false; dec_create := Some CmpGT; dec_edit := Some CmpGT;
+     dec_exec := true; dec_rec := true; cont_exec := true; cont_staking := true; cont_other := true; wasm_check := true |}.
+
+Lemma refuted_genesis_chain_without_decorator :
+  exists gentxs s1, run_genesis cfg_genesis_no_decorator world_plain (st0 0) gentxs = Some s1 /\ breaks_cap s1.
+Proof.
+  exists [{| t_dt := 0; t_ext := NoExt; t_signer := 1%nat; t_msgs := [Leaf (CreateVal 1 r90 ONE ONE)] |}].
+  eexists. split; [vm_compute; reflexivity|].
   exists 1%nat. eexists. split; [vm_compute; reflexivity|vm_compute; reflexivity].
 Qed.
 
